@@ -1,4 +1,5 @@
 import Nri.Model.ApplyGrant
+import Nri.Gen.BalloonPinFacts
 import Nri.Gen.PipeFacts
 /-!
 C12 — opt-outs are honoured (topology-aware half): what the policy writes to a container.
@@ -42,3 +43,54 @@ the zone -/
 theorem unpinned_mem_value (zone : Nat) (zs : Nat → String) : memsValue false zone zs = zs 0 := rfl
 
 end Nri.TA
+
+/-! ### balloons half -/
+namespace Nri.BalloonsPin
+open Nri.TA (Field)
+
+/-- a container opted out of CPU pinning - by annotation or by a matching preserve rule - is written nothing at all -/
+theorem balloons_cpu_optout_written_nothing (rule ann pinCPU pm : Bool) (pt : Option Bool) (mp : Bool) (h : ann = true ∨ rule = true) :
+    allocateWrites ann rule pinCPU pm pt mp = [] := by
+  rcases h with h | h <;> simp [allocateWrites, h]
+
+/-- with CPU pinning disabled nobody is told a CPU set -/
+theorem balloons_unpinned_cpu_never_written (ann rule pm : Bool) (pt : Option Bool) (mp : Bool) :
+    Field.cpus ∉ allocateWrites ann rule false pm pt mp := by
+  unfold allocateWrites
+  cases ann <;> cases rule <;> cases mp <;> cases h : pt.getD pm <;> simp [h]
+
+/-- a container opted out of memory pinning (memory.preserve) is never told memory nodes - neither when it is
+admitted nor when another container's allocation widens its zone (the defect repaired by fix aca789f was
+exactly that both writes existed) -/
+theorem balloons_preserved_mem_never_written (ann rule pinCPU pm : Bool) (pt : Option Bool) :
+    Field.mems ∉ allocateWrites ann rule pinCPU pm pt true ∧ Field.mems ∉ updateWrites true := by
+  constructor
+  · unfold allocateWrites
+    cases ann <;> cases rule <;> cases pinCPU <;> cases h : pt.getD pm <;> simp [h]
+  · simp [updateWrites]
+
+/-- memory pinning disabled for the balloon type (or globally, with no type-level override): no memory nodes are told -/
+theorem balloons_unpinned_mem_never_written (ann rule pinCPU pm mp : Bool) (pt : Option Bool) (h : pt.getD pm = false) :
+    Field.mems ∉ allocateWrites ann rule pinCPU pm pt mp := by
+  unfold allocateWrites
+  cases ann <;> cases rule <;> cases pinCPU <;> simp [h]
+
+end Nri.BalloonsPin
+
+/-! ### source shapes the model was written against (BalloonPinFacts.lean; the regenerated facts must equal them) -/
+namespace Nri.BalloonsPin.Expectgen_balloon_pin_facts_ok
+def pinCpuMem : List String := ["if p.bpoptions.PinCPU == nil || *p.bpoptions.PinCPU", "> c.SetCpusetCpus(cpus.String())", "> if reqCpu, ok := c.GetResourceRequirements().Requests[corev1.ResourceCPU]; ok", "> > c.SetCPUShares(int64(cache.MilliCPUToShares(int64(mCpu))))", "pinMemory := p.bpoptions.PinMemory == nil || *p.bpoptions.PinMemory", "if blnDefPinMemory != nil", "> pinMemory = *blnDefPinMemory", "if pinMemory", "> if c.PreserveMemoryResources()", "> > if err != nil", "> > else", "> > > zone := p.allocMem(c, preserveMems, 0, true)", "> else", "> > zone := p.allocMem(c, mems, effMemTypeMask, false)", "> > c.SetCpusetMems(zone.MemsetString())"]
+def allocMem : List String := ["if _, ok := p.memAllocator.AssignedZone(c.GetID()); !ok", "> if preserve", "> > req = libmem.PreservedContainer( c.GetID(), c.PrettyName(), amount, nodes, )", "> else", "> > req = libmem.ContainerWithTypes( c.GetID(), c.PrettyName(), string(c.GetQOSClass()), amount, nodes, types, )", "> zone, updates, err = p.memAllocator.Allocate(req)", "else", "> zone, updates, err = p.memAllocator.Realloc(c.GetID(), nodes, types)", "if err != nil", "> return nodes", "range updates", "> if oc, ok := p.cch.LookupContainer(oID); ok", "> > if oc.PreserveMemoryResources()", "> > > continue", "> > oc.SetCpusetMems(oz.MemsetString())", "return zone"]
+def updatePinning : List String := ["range blns", "> var allowedCpus cpuset.CPUSet", "> range bln.ContainerIDs()", "> > if c, ok := p.cch.LookupContainer(cID); ok", "> > > if runWithoutHyperthreads(c, bln)", "> > > > allowedCpus = cpusNoHt", "> > > else", "> > > > allowedCpus = pinnableCpus", "> > > p.pinCpuMem(c, allowedCpus, bln.Mems, bln.memTypeMask, bln.Def.PinMemory)"]
+end Nri.BalloonsPin.Expectgen_balloon_pin_facts_ok
+
+namespace Nri.BalloonsPin
+
+/-- the regenerated statement skeletons of the balloons policy's writes are the ones allocateWrites / updateWrites follow: pinCpuMem writes cpuset and shares under PinCPU, decides memory pinning from the policy-level setting overridden by the balloon type's, accounts the memory of a preserving container WITHOUT writing its cpuset.mems and writes the zone otherwise; allocMem's loop over the allocator's updates skips containers that preserve their memory resources; updatePinning re-pins the members of the given balloons through pinCpuMem (the cpu.preserve / preserve-rule early returns of AllocateResources are pinned by C02's gen_balloon_req_facts_ok) -/
+theorem gen_balloon_pin_facts_ok :
+    Nri.Gen.BalloonPin.pinCpuMem = Expectgen_balloon_pin_facts_ok.pinCpuMem ∧
+    Nri.Gen.BalloonPin.allocMem = Expectgen_balloon_pin_facts_ok.allocMem ∧
+    Nri.Gen.BalloonPin.updatePinning = Expectgen_balloon_pin_facts_ok.updatePinning := by
+  and_intros <;> rfl
+
+end Nri.BalloonsPin
